@@ -323,6 +323,24 @@ theorem C13_inclusive_counterexample : ¬ C13_inclusive_statement := by
   revert this
   decide +kernel
 
+/-- calendar: moving the period and every report of a group by `k` days (e.g. by exactly one year,
+365 or 366 days) moves its windows by `k` days — the computation only sees differences of dates,
+for every rounding -/
+theorem C13_shift_invariance (ρ : Rounding) (k S E : Int) (rows : List Row) :
+    groupWins ρ (S + k) (E + k) (rows.map (Row.shift k)) = (groupWins ρ S E rows).map (Win.shift k) :=
+  groupWins_shift ρ k S E rows
+
+/-- frame / history independence: the windows of a group are a function of the reports of the
+group's own site, the period and the rounding alone — reports of other sites in the table (and,
+the model being a function, any earlier report computation) do not influence them -/
+theorem C13_site_frame (m : Mode) (ρ : Rounding) (S E : Int) (recs : List Rec) :
+    ∀ kw ∈ report m ρ S E recs,
+      kw.2 = groupWins ρ S E (groupInput m (recs.filter (fun r => r.site = kw.1.site)) kw.1) := by
+  intro kw hkw
+  unfold report at hkw
+  obtain ⟨k, _, rfl⟩ := List.mem_map.mp hkw
+  simp only [groupInput_frame]
+
 /-- non-vacuity: the witness of the defect that was repaired (f = 7/10, surveys on day 10 and 20 of
 a 30-day period, rates 1 and 2 g/s): the hypotheses hold and the windows are
 [0,3) [3,13) [13,27) [27,30) -/
